@@ -19,7 +19,7 @@ func derefParamSummary(fn *ssa.Function, memo map[*ssa.Function]map[int]bool, de
 	}
 	out := map[int]bool{}
 	memo[fn] = out // cut recursion
-	if fn == nil || len(fn.Blocks) == 0 || depth > 3 {
+	if fn == nil || len(fn.Blocks) == 0 || depth > bound(3) {
 		return out
 	}
 	idx := map[ssa.Value]int{}
